@@ -390,10 +390,11 @@ def select__descendant_path(self: XPathToken, context: ta.ContextType = None) \
             context.item = context.root  # A fragment or a schema node
 
         items = set()
+        atomic_items = []
         for _ in context.iter_descendants():
             for result in self[0].select(context):
                 if not isinstance(result, XPathNode):
-                    items.add(result)
+                    atomic_items.append(result)
                 elif result in items:
                     pass
                 elif isinstance(result, ElementNode):
@@ -402,7 +403,12 @@ def select__descendant_path(self: XPathToken, context: ta.ContextType = None) \
                 else:
                     items.add(result)
 
-        yield from sorted(items, key=node_position)
+        if atomic_items:
+            if items:
+                raise self.error('XPTY0018')
+            yield from atomic_items  # the last step of a path can produce atomic values
+        else:
+            yield from sorted(items, key=node_position)
 
 
 ###
